@@ -30,12 +30,24 @@ func init() {
 func nat(k int) string { return fmt.Sprintf("%d%%nat", k) }
 
 // writeCall performs one Write of packet i with all caller-side bookkeeping.
-func writeCall(c *c13Case, cl *caller, w interceptor.RTPWriter, i int, twcc bool, out *runOut) {
+// It reports whether the component accepted the packet (a component may refuse a packet
+// with an error, e.g. a payload larger than its pooled buffers: nothing of it may be emitted
+// later).  Set c13: a refused call is left out of the operation list; set c13x: it stays, the
+// model predicts the refusal from the size.
+func writeCall(c *c13Case, cl *caller, w interceptor.RTPWriter, i int, twcc bool, out *runOut) bool {
 	h, p := cl.build(c.Pkts[i], twcc)
-	out.ops = append(out.ops, callOp(c.Comp, h, p))
+	out.ops = append(out.ops, callOp(c, h, p))
 	cl.before(h, p)
-	_, _ = w.Write(h, p, interceptor.Attributes{})
+	_, err := w.Write(h, p, interceptor.Attributes{})
 	cl.after(i, h, p)
+	if err != nil {
+		out.refused++
+		if !c.isX() {
+			out.ops = out.ops[:len(out.ops)-1]
+		}
+	}
+
+	return err == nil
 }
 
 // ---- NACK responder (copy mode / DisableCopy) ----
@@ -63,6 +75,7 @@ func runNack(c *c13Case, cl *caller, fails *[]cq.ImplFailure, noCopy bool) runOu
 	}))
 	rtcpBuf := make([]byte, 1500)
 	calls := 0
+	stored := map[int]int{} // packet index -> index among the accepted packets
 	fire := func(e ev) {
 		// a NACK for a packet that has not been written yet asks for a sequence number that is
 		// never used in this history (the resend goroutine may run arbitrarily late)
@@ -86,19 +99,21 @@ func runNack(c *c13Case, cl *caller, fails *[]cq.ImplFailure, noCopy bool) runOu
 				buf[i] = 0x77
 			}
 		}
-		if e.K < calls {
+		k, have := stored[e.K]
+		if e.K < calls && have {
 			if !waitFor(sk.n, before+1, 2*time.Second) {
 				*fails = append(*fails, cq.ImplFailure{Kind: "no-retransmission", Detail: fmt.Sprintf("NACK for stored packet %d not answered", e.K), Case: c})
 			}
 			time.Sleep(200 * time.Microsecond)
 		} else {
+			k = len(c.Pkts) + e.K // nothing stored under this number: not sent yet, or refused
 			time.Sleep(3 * time.Millisecond)
 		}
 		sk.mu.Lock()
 		got := append([][4]int64{}, sk.pk[before:]...)
 		sk.mu.Unlock()
 		out.outs = append(out.outs, flatParts(got))
-		out.ops = append(out.ops, cq.C("Emit", c.Comp, nat(e.K)))
+		out.ops = append(out.ops, c.emitOp(k))
 	}
 	ei := 0
 	for i := range c.Pkts {
@@ -106,7 +121,9 @@ func runNack(c *c13Case, cl *caller, fails *[]cq.ImplFailure, noCopy bool) runOu
 			fire(c.Evs[ei])
 			ei++
 		}
-		writeCall(c, cl, w, i, false, &out)
+		if writeCall(c, cl, w, i, false, &out) {
+			stored[i] = len(stored)
+		}
 		calls++
 		out.ops = append(out.ops, cl.scribble()...)
 	}
